@@ -12,6 +12,7 @@
 package main
 
 import (
+	"bytes"
 	"encoding/json"
 	"fmt"
 	"hash/fnv"
@@ -240,6 +241,7 @@ type obs struct {
 	MarkerErr bool
 	Ran       []peer.Exchange
 	PeerNote  string
+	KeyBad    bool // the endpoint's key differs from the one the peer derived independently
 }
 
 var marker = []byte("C03-MARKER-plaintext-canary-0123456789abcdef")
@@ -287,6 +289,9 @@ func runSpec(sp spec, seed int64) obs {
 			o.MarkerErr = true
 		}
 		o.Clear = tap.Contains(isCli, off, marker)
+		if res.Encrypted && lg.DerivedKey != nil && !bytes.Equal(res.Key, lg.DerivedKey) {
+			o.KeyBad = true
+		}
 	}
 	ca.Close()
 	sa.Close()
@@ -328,6 +333,9 @@ func judge(sp spec, o obs) (string, string) {
 	}
 	if o.Enc != o.Real || o.Real == o.Clear {
 		return "report-enc", fmt.Sprintf("reported Encryption=%v, IsEncrypted=%v, cleartext on the wire=%v", o.Enc, o.Real, o.Clear)
+	}
+	if o.KeyBad {
+		return "key-not-derived", "the stream is encrypted with a key other than HKDF(ECDH(own key, the peer's advertised key)) as computed independently by the peer"
 	}
 	if o.Auth != (lastOK != "") {
 		return "report-auth", fmt.Sprintf("reported Authentication=%v but exchanges on the wire were %v", o.Auth, o.Ran)
